@@ -1,7 +1,7 @@
 (* Properties_C07.v — C07: aggregation up to the capacity; unsent bytes bounded. *)
 From Coq Require Import ZArith List Bool Lia.
 Import ListNotations.
-From Ygm Require Import RankMachine RankInv.
+From Ygm Require Import RankMachine RankInv RankBound.
 Local Open Scope Z_scope.
 
 (* below the capacity nothing goes on the wire: no MPI call at all, the message is only buffered *)
@@ -23,3 +23,42 @@ Theorem C07_bcast_unsent_le_cap : forall c fuel m s s',
   run fuel c (PBcast m) s = Ok s' -> inprq s' = false -> sbb s' <= c_cap c.
 Proof. exact bcast_unsent_le_cap. Qed.
 Print Assumptions C07_bcast_unsent_le_cap.
+
+
+(* THE IN-FLIGHT BOUND.  A rank that only issues point-to-point asyncs from its main program (payloads 0..L), whose
+   handlers and callbacks send nothing and which forwards nothing (routing NONE; what it receives are point-to-point
+   messages or last-stage broadcast legs), never has more than  2 * capacity + one message  bytes buffered plus
+   posted-but-incomplete: at every MPI call of every execution (every prefix: finished, blocked, stopped), for every
+   capacity, every destination pattern, every completion delay of its sends and every arrival pattern of incoming
+   messages (all encoded in the oracle).  18 + L is the wire size of one message. *)
+Theorem C07_inflight_bounded : forall c,
+  c_routing c = 0%Z ->
+  (forall u, forallb quiet_act (c_hprog c u) = true) ->
+  (forall i, forallb quiet_act (c_cbprog c i) = true) ->
+  forall L fuel nranks main orc,
+  forallb (p2p L) main = true -> forallb quiet_resp orc = true -> (0 <= c_cap c)%Z -> (0 <= L)%Z ->
+  match run_rank fuel c nranks main orc with
+  | Ok s' | Blocked s' | Err _ s' => (pend s' + sbb s' <= 2 * c_cap c + (18 + L))%Z
+  | OutOfFuel => True
+  end.
+Proof. exact inflight_bounded. Qed.
+Print Assumptions C07_inflight_bounded.
+
+(* everything except the enqueue of an async never increases buffered + pending bytes, nor the buffered bytes *)
+Theorem C07_only_asyncs_add_bytes : forall c,
+  c_routing c = 0%Z ->
+  (forall u, forallb quiet_act (c_hprog c u) = true) ->
+  (forall i, forallb quiet_act (c_cbprog c i) = true) ->
+  forall fu p s, quietp p -> N s -> resQ s (run fu c p s).
+Proof. exact quiet_mono. Qed.
+Print Assumptions C07_only_asyncs_add_bytes.
+
+(* non-vacuity: capacity 16, two 40-byte asyncs (58 bytes on the wire each); the first send stays incomplete, so the second
+   async waits in check_if_production_halt_required with 58 bytes in flight *)
+Local Open Scope Z_scope.
+Definition c7 : cfg := {| c_n := 2; c_p := 1; c_me := 0; c_routing := 0; c_cap := 16; c_nisw := 4; c_freq := 0;
+  c_hprog := fun _ => []; c_cbprog := fun _ => [] |}.
+Example C07_bound_not_vacuous :
+  exists s, run_rank 1000 c7 2 [AAsync 1 1 40; AAsync 1 2 40] [RTestSend false; RTestRecv None; RTestSend false; RTestRecv None] = Blocked s
+            /\ pend s = 58 /\ pend s + sbb s <= 2 * 16 + (18 + 40).
+Proof. eexists. split; [vm_compute; reflexivity|]. cbn. lia. Qed.
